@@ -73,6 +73,11 @@ ELEM = re.compile(r'<(\w+)[^<>]*?/>|<(\w+)[^<>]*>[^<>]*</\2>')
 def mutate_xml(rng, xml):
     """element-level faults: drop an attribute, drop / duplicate / empty an element, change a kind or a reference"""
     r = rng.random()
+    if r < 0.12:
+        ms = list(re.finditer(r'\b(?:id|ref|kind|controllable|x|y|outcome|type|value)="([^"]*)"', xml))
+        if ms:                                                   # an attribute that is present but blank / odd
+            m = rng.choice(ms)
+            return xml[:m.start(1)] + rng.choice(['', ' ', '\t', '&#10;', 'id0 ', ' id0', 'true', '0', '-1', 'id0 id1']) + xml[m.end(1):]
     if r < 0.35:
         ms = list(ATTR.finditer(xml))
         if ms:
@@ -150,4 +155,58 @@ def init_lists(rng):
         out += 'typedef struct { S in; int z[2]; } O; O o = { %s, %s%s }; ' % (lst(rng.choice([nf - 1 if nf > 1 else 1, nf, nf + 1])), lst(rng.choice([1, 2, 3])), ', 5' if rng.random() < 0.4 else '')
     if rng.random() < 0.3:
         out += 'void f() { S l = %s; int b[2] = %s; }' % (lst(rng.choice([nf, nf + 1, nf + 3])), lst(rng.choice([2, 3])))
+    return out
+
+
+LSC_DOC = ('<?xml version="1.0" encoding="utf-8"?><nta><declaration>clock x; chan m1, m2; int g;</declaration>'
+           '<template><name>P</name><location id="id0"><name>L</name></location><init ref="id0"/><transition><source ref="id0"/><target ref="id0"/><label kind="synchronisation">m1!</label></transition></template>'
+           '<lsc><name>Sc</name><parameter>int a</parameter><type>Universal</type><mode>Invariant</mode><declaration>int v;</declaration>'
+           '<yloccoord number="0" y="0"/><yloccoord number="1" y="56"/><yloccoord number="2" y="104"/><yloccoord number="3" y="144"/>'
+           '<instance id="id8" x="432" y="0"><name x="0" y="0">A</name></instance><instance id="id9" x="288" y="0"><name>B</name></instance>'
+           '<prechart x="0" y="104"><lsclocation>2</lsclocation></prechart>'
+           '<message x="0" y="56"><source ref="id8"/><target ref="id9"/><lsclocation>1</lsclocation><label kind="message" x="61" y="-18">m1</label></message>'
+           '<message x="0" y="144"><source ref="id9"/><target ref="id8"/><lsclocation>3</lsclocation><label kind="message">m2</label></message>'
+           '<condition x="0" y="56"><anchor instanceid="id9"/><lsclocation>1</lsclocation><temperature>cold</temperature><label kind="condition">x &gt;= a</label></condition>'
+           '<update x="0" y="144"><anchor instanceid="id8"/><lsclocation>3</lsclocation><label kind="update">g = 1</label></update></lsc>'
+           '<system>system P;</system></nta>')
+
+
+def structural_sweep(xml):
+    """every single element-level and attribute-level fault of a document, systematically: each attribute removed / blank / a
+    space; each element removed, duplicated, emptied (children and text dropped), its text dropped.  -> list of (what, xml)"""
+    import copy
+    import xml.etree.ElementTree as ET
+    head = '<?xml version="1.0" encoding="utf-8"?>'
+    root = ET.fromstring(xml[xml.index('<nta'):])
+    out = []
+    def ser(r):
+        return head + ET.tostring(r, encoding='unicode')
+    def nodes(r):
+        res = []
+        def walk(e, path):
+            for i, c in enumerate(list(e)):
+                res.append(path + [i]); walk(c, path + [i])
+        walk(r, [])
+        return res
+    def at(r, path):
+        e = r
+        for i in path[:-1]: e = list(e)[i]
+        return e, list(e)[path[-1]]
+    for path in nodes(root):
+        _, el0 = at(root, path)
+        label = '%s@%s' % (el0.tag, '.'.join(map(str, path)))
+        for a in list(el0.attrib):
+            for val, nm in ((None, 'no'), ('', 'empty'), (' ', 'blank')):
+                r = copy.deepcopy(root); _, el = at(r, path)
+                if val is None: del el.attrib[a]
+                else: el.attrib[a] = val
+                out.append(('%s %s attribute %s' % (label, nm, a), ser(r)))
+        r = copy.deepcopy(root); par, el = at(r, path); par.remove(el); out.append((label + ' removed', ser(r)))
+        r = copy.deepcopy(root); par, el = at(r, path); par.insert(path[-1], copy.deepcopy(el)); out.append((label + ' duplicated', ser(r)))
+        if len(el0) or (el0.text or '').strip():
+            r = copy.deepcopy(root); par, el = at(r, path)
+            for c in list(el): el.remove(c)
+            el.text = None; out.append((label + ' emptied', ser(r)))
+        if len(el0) and (el0.text or '').strip() == '':
+            r = copy.deepcopy(root); par, el = at(r, path); el.text = 'zz'; out.append((label + ' stray text', ser(r)))
     return out
